@@ -569,24 +569,28 @@ class CFG:
         return facts
 
     def loop_of(self, node):
-        """Innermost loop head (test/for node with a back edge) whose body contains node."""
-        best = None
-        for a, h in self.back_edges:
-            # node is in loop of h if h reaches node and node reaches h without leaving
-            pass
-        heads = {h for _, h in self.back_edges}
+        """Innermost loop head whose natural loop contains node (None if not in a loop)."""
         cands = []
-        for h in heads:
-            body = self.reach_from(h, avoid=(h,)) & self.reach_to(h, avoid=(h,))
+        for h in {h for _, h in self.back_edges}:
+            body = self.loop_body(h)
             if node in body:
-                cands.append((len(body), h))
+                cands.append((len(body), h.id, h))
         if cands:
-            cands.sort(key=lambda x: x[0])
-            best = cands[0][1]
-        return best
+            cands.sort()
+            return cands[0][2]
+        return None
 
     def loop_body(self, head):
-        return self.reach_from(head, avoid=(head,)) & self.reach_to(head, avoid=(head,))
+        """Natural loop of `head` (head itself excluded): every node that can reach a
+        back-edge source of head without passing through head."""
+        body = set()
+        for a, h in self.back_edges:
+            if h is head:
+                if a is not head:
+                    body.add(a)
+                    body |= self.reach_to(a, avoid=(head,))
+        body.discard(head)
+        return body
 
     def iter_guard_atoms(self, target):
         """Facts that hold in the *same iteration* of the innermost enclosing loop."""
